@@ -192,16 +192,13 @@ macro_rules! with_dim {
 /// the rescaled Feynman parameters become arbitrary positive reals X_e, the determinant becomes a
 /// fresh U with U = Kirchhoff(X), and (for L >= 2) the inverse entries become fresh INV_ij with
 /// INV_ij * U = adjugate(L_spec)_ij.
-pub fn cut_x_u_inverse<T: Scalar, const D: usize>(
+pub fn cut_u_inverse<T: Scalar, const D: usize>(
     out: &mut Outcome<T>,
     g: &OGraph,
     sig: &[Vec<isize>],
     x: &[T],
     res: &TropicalSampleResult<T, D>,
 ) {
-    for (e, xe) in x.iter().enumerate() {
-        out.cut(*xe, format!("X{}", e), &["(> {} 0.0)"]);
-    }
     let uspec = oracle::u_poly(g, x);
     out.cut_rel(res.u, "Ucut", vec![(res.u, Rel::Eq, uspec)]);
     let l = g.num_loops();
